@@ -41,7 +41,7 @@ def opcodes : List (String × Nat) :=
    ("POPN", 29),
    ("BIND", 30)]
 
-/- source: machine.go:129 -/
+/- source: machine.go:144 -/
 def operands : List (String × List String) :=
   [("NOP", []),
    ("RET", []),
@@ -111,7 +111,7 @@ def versionMinor : Nat :=
 def dumpSections : List String :=
   ["magic+version", "name", "code", "constants", "positions", "lfs"]
 
-/- source: machine.go:45, machine.go:46, parse.go:70, parse.go:724, lex.go:32, api.go:56 -/
+/- source: machine.go:60, machine.go:61, parse.go:70, parse.go:724, lex.go:32, api.go:56 -/
 def limits : List (String × Nat) :=
   [("stackSize", 1024),
    ("blockStackSize", 16),
@@ -293,7 +293,7 @@ def tokensBufSize : Nat :=
 
 /- source: api.go:48, api.go:38, parse.go:7, lex.go:14, lex.go:46, lex.go:53, lex.go:62, lex.go:79, lex.go:25, parse.go:474 -/
 def concSkeleton : List (String × List String) :=
-  [("ParseFile", ["makechan 0", "makechan 0", "makechan 0", "makechan 0", "go{", "defer f.Close()", "for {", "call f.Read", "if err != nil && err != io.EOF {", "send rerr", "break", "}", "if err == io.EOF {", "if n > 0 {", "send inpc", "}", "send rerr", "break", "}", "select{", "case send inpc:", "continue", "case recv done:", "send rerr", "return", "}", "}", "close inpc", "}", "go{", "call parseWithOpts", "if err != nil {", "close done", "}", "set prog", "send perr", "}", "recv rerr", "recv perr", "return"]),
+  [("ParseFile", ["makechan 0", "makechan 0", "makechan 0", "makechan 0", "go{", "defer f.Close()", "for {", "call f.Read", "if err != nil && err != io.EOF {", "send rerr", "break", "}", "if err == io.EOF && n == 0 {", "send rerr", "break", "}", "select{", "case send inpc:", "continue", "case recv done:", "send rerr", "return", "}", "}", "close inpc", "}", "go{", "call parseWithOpts", "if err != nil {", "close done", "}", "set prog", "send perr", "}", "recv rerr", "recv perr", "return"]),
    ("Parse", ["makechan 1", "send c", "close c", "call parseWithOpts", "return"]),
    ("parse", ["call newLexer", "for !p.matchEnd() {", "}", "if p.hadError {", "return", "}", "return"]),
    ("newLexer", ["makechan tokensBufSize", "go{", "call l.run", "}", "return"]),
@@ -304,8 +304,32 @@ def concSkeleton : List (String × List String) :=
    ("lexer.nextToken", ["recv l.tokens", "return"]),
    ("parser.advance", ["for {", "call p.lexer.nextToken", "if !ok {", "return", "}", "if p.current.typ != tERR {", "break", "}", "}"])]
 
-/- source: all functions of package bcl (175) -/
+/- source: all functions of package bcl (176) -/
 def chanUsers : List String :=
   []
+
+/- source: every function of package bcl mentioning lfs -/
+def lfsAccess : List (String × String) :=
+  [("Prog.Dump", "bare"),
+   ("Prog.Load", "bare"),
+   ("lineCalc.add", "locked"),
+   ("lineCalc.lineColAt", "locked"),
+   ("newLineCalc", "new")]
+
+/- source: every function of package bcl (176) -/
+def progWriters : List String :=
+  ["Prog.Load", "Prog.addConst", "Prog.initForParse", "Prog.write", "parser.end"]
+
+/- source: every function of package bcl (176) -/
+def pkgVarWriters : List String :=
+  ["init"]
+
+/- source: syntactic call graph from execute -/
+def execReach : List String :=
+  ["Block.key", "Prog.disasmInstr", "SliceBinding.binding", "StructBinding.binding", "_", "bindInstr", "binopNumeric", "binopString", "blockInstr", "constInstr", "execute", "isAlpha", "isAlphaNum", "isDigit", "isEol", "isFalsey", "isFloat", "isInt", "isNumber", "isSpace", "isString", "jumpInstr", "lexFloat", "lexHex", "lexKeywordOrIdent", "lexLineComment", "lexNumber", "lexQuote", "lexSpace", "lexStart", "lexer.accept", "lexer.acceptRun", "lexer.acceptRunFunc", "lexer.backup", "lexer.current", "lexer.emit", "lexer.emitError", "lexer.fail", "lexer.ignore", "lexer.next", "lexer.peek", "lexer.run", "lexer.unbackup", "lineCalc.format", "lineCalc.lineColAt", "opcode.String", "printStack", "simpleInstr", "token.String", "tokenType.String", "typecode.String", "u16FromBytes", "unopNumeric", "uvarintFromBytes", "varbyteargInstr", "vm.reset", "vm.run", "vm.runtimeError", "vm.warning", "vtype"]
+
+/- source: syntactic call graph from ParseFile -/
+def pipelineReach : List String :=
+  ["Block.key", "ParseFile", "Prog.addConst", "Prog.count", "Prog.disasm", "Prog.disasmInstr", "Prog.initForParse", "Prog.write", "SliceBinding.binding", "StructBinding.binding", "_", "bindInstr", "bindStmt", "binopNumeric", "binopString", "blockInstr", "blockStmt", "constInstr", "decl", "errCombined.Error", "errInvalidType.Error", "errInvalidValue.Error", "expr", "exprStmt", "fieldMappingErr.Error", "getRule", "isAlpha", "isAlphaNum", "isDigit", "isEol", "isFalsey", "isFloat", "isInt", "isNumber", "isSpace", "isString", "jumpInstr", "lexFloat", "lexHex", "lexKeywordOrIdent", "lexLineComment", "lexNumber", "lexQuote", "lexSpace", "lexStart", "lexer.accept", "lexer.acceptRun", "lexer.acceptRunFunc", "lexer.backup", "lexer.current", "lexer.emit", "lexer.emitError", "lexer.fail", "lexer.ignore", "lexer.next", "lexer.nextToken", "lexer.peek", "lexer.run", "lexer.unbackup", "lineCalc.add", "lineCalc.format", "lineCalc.lineColAt", "logger.Print", "logger.Printf", "makeConfig", "newLexer", "newLineCalc", "newProg", "opcode.String", "parse", "parseWithOpts", "parser.addLocal", "parser.advance", "parser.beginScope", "parser.check", "parser.checkEnd", "parser.consume", "parser.currentProg", "parser.declVar", "parser.defBlock", "parser.defVar", "parser.emitByte", "parser.emitBytes", "parser.emitOp", "parser.emitUvarint", "parser.end", "parser.endBlock", "parser.endScope", "parser.error", "parser.errorAt", "parser.errorAtCurrent", "parser.finishStats", "parser.identConst", "parser.makeConst", "parser.markInitialized", "parser.match", "parser.matchEnd", "parser.parsePrecedence", "parser.popN", "parser.sync", "printPStats", "printStack", "printStmt", "runtimeErr.Error", "simpleInstr", "stmt", "token.String", "tokenType.String", "typecode.String", "u16FromBytes", "unopNumeric", "uvarintFromBytes", "uvarintToBytes", "varDecl", "varbyteargInstr", "vm.run", "vm.runtimeError", "vm.warning", "vtype"]
 
 end Bclv.Gen
